@@ -95,6 +95,9 @@ def run(rep: Report) -> None:
     check_operators(rep, prog, resolver, "R06.4", None, None, only=["mul", "div", "rdiv", "pow", "root", "neg", "pos", "abs"])
     check_comparisons(rep, prog, resolver, "R06.2")
     immutability(rep, prog, resolver)
+    from .c05 import check_equate
+    rep.rule("R05.1", "the conversion tables are keyed by unprefixed units and store mutually inverse, correctly oriented ratios (shared with C05)", floor=6)
+    check_equate(rep, prog, resolver)
     from .c05 import check_match_direction
     rep.rule("R05.9", "planner steps obtained with the sides exchanged are turned round before use (shared with C05; the rest of the planner is C04's)", floor=2)
     check_match_direction(rep, prog)
